@@ -22,6 +22,7 @@ import Paroxy.Proofs.MakeDbResolved
 import Paroxy.Spec.Filter
 import Paroxy.Proofs.Imported
 import Paroxy.Proofs.JsonText
+import Paroxy.Proofs.JsonDb
 namespace Paroxy.Props.C11
 open Paroxy Paroxy.DB
 
@@ -687,6 +688,53 @@ example : compact (codesOf "{\n  \"k\": [\n    [\n      3,\n      8\n    ],\n   
 /-- before the fix 1a46ae2 (F05) the pattern used `\s+` and matched inside sources; a RAW look-alike outside a string
 is still compacted (this is what the pattern is for), inside a lexable string literal it cannot be raw. -/
 example : compact (codesOf "[\n 1,\n 2\n] ") = codesOf "[1,2]" := by decide +kernel
+
+/-! ### X3 — the round trip, about the model's database (Model/JsonDb.lean, Proofs/JsonDb.lean)
+
+`dbToJson db` is the `data` dictionary `get_json` assembles from the fields of a `TagDatabase` (keys `programs` — per
+program `timestamp`, `source`, `labels`, `taxa` —, `labels`, `taxa`, `importations`, `exportations`, in the orders of
+the code); `dbOk db` says that every string of the database is free of a high surrogate directly followed by a low one;
+the spans being pairs of naturals, numbers need no hypothesis for the round trip. -/
+section JsonDbLayer
+open Paroxy.JsonDb
+
+/-- `J.ok (dbToJson db)` is exactly the string-by-string hygiene of the database. -/
+theorem C11_db_json_ok (db : Db) : J.ok (dbToJson db) = dbOk db := ok_dbToJson db
+
+/-- **The JSON written by `collect` parses back to exactly the database that was computed**, for every database
+produced by `makeDb` whose strings are hygienic. -/
+theorem C11_db_json_roundtrip (h : makeDb toTaxa progs = .ok db) (hok : dbOk db = true) :
+    loads (getJsonText (dbToJson db)) = some (dbToJson db) :=
+  have _ := h
+  C11_json_roundtrip (dbToJson db) ((ok_dbToJson db).trans hok)
+
+/-- FULL statement (not proved in this round): the hygiene derived from the INPUTS of `makeDb` — the strings of the
+programs (paths, time stamps, sources, raw label names, span paths are not written) and the taxon names the oracle
+returns. What is missing: `strOk` is preserved by the relabelling (`replaceChar 46 47`, `tweakFirstColon`: both only
+write ASCII characters), and every string of the five fields is one of those (membership lemmas through `sortKeys`,
+`collectNew`, `collect`, the closure and `exportations`). -/
+def C11_db_json_roundtrip_from_inputs : Prop :=
+  ∀ (toTaxa : Name → List Label → List Taxon) (progs : List Prog) (db : Db), makeDb toTaxa progs = .ok db →
+    (∀ p ∈ progs, strOk p.path = true ∧ strOk p.timestamp = true ∧ strOk p.source = true ∧
+      ∀ l ∈ p.labels, strOk l.name = true) →
+    (∀ p ls, ∀ t ∈ toTaxa p ls, strOk t.name = true) →
+    loads (getJsonText (dbToJson db)) = some (dbToJson db)
+
+/-- **The JSON value determines the database**: two databases whose spans are naturals (line numbers) and that have
+the same `data` value have the same records, indexes and import tables. With `C11_db_json_roundtrip`: what
+`json.loads` returns on the file written by `collect` determines the database that was computed. -/
+theorem C11_dbToJson_injective {a b : Db} (ha : spansNat a) (hb : spansNat b) (h : dbToJson a = dbToJson b) : a = b :=
+  dbToJson_inj ha hb h
+
+/-- Non-vacuity on a `makeDb` output: `a.py` (non-ASCII source, an `import:b` label that the relabelling turns into
+`import_internally:b`) imports `b.py`; the database is hygienic, and the theorem applies to it. -/
+example : makeDb demoTaxa demoProgs = .ok demoOut ∧ dbOk demoOut = true ∧
+    loads (getJsonText (dbToJson demoOut)) = some (dbToJson demoOut) :=
+  ⟨demo_makeDb, by decide +kernel, C11_db_json_roundtrip demo_makeDb (by decide +kernel)⟩
+example : loadsIs (getJsonText (dbToJson demoOut)) (dbToJson demoOut) = true ∧
+    demoOut.importations = [(codesOf "a.py", [codesOf "b.py"]), (codesOf "b.py", [])] := by decide +kernel
+
+end JsonDbLayer
 
 end JsonTextLayer
 
